@@ -34,3 +34,16 @@ func KitchenCovariant() *Schema {
 	s.Types["P"].Fields = append(s.Types["P"].Fields, F("p:I"))
 	return s
 }
+
+// KitchenArgs is Kitchen plus fields with a required argument and one argument of every
+// input type shape (used by the validation and type-tracking checks).
+func KitchenArgs() *Schema {
+	s := Kitchen()
+	q := s.Types["Query"]
+	q.Fields = append(q.Fields,
+		F("r(q:Int!):String"),
+		F("g(i:Int,fl:Float,s:String,id:ID,bo:Boolean,c:Custom,e:E,li:[Int],ln:[Int!]!,ll:[[Int]],in:In,lin:[In!]):String"))
+	o := s.Types["O"]
+	o.Fields = append(o.Fields, F("r(q:Int!,d:Int=3):String"))
+	return s
+}
